@@ -272,7 +272,10 @@ SameAsDesired(o, d) ==
   /\ SubFn(d.fields, o.fields) /\ SubFn(d.labels, o.labels) /\ SubFn(d.ann, o.ann)
   /\ o.hasLA
   /\ \A p \in DOMAIN d.fields : p \in DOMAIN o.la /\ o.la[p] = d.fields[p]
+  \* (a status handed back inside the desired child is recorded with the rest of it)
+  /\ \A sp \in DOMAIN d.status : ("status." \o sp) \in DOMAIN o.la /\ o.la["status." \o sp] = d.status[sp]
   /\ \A p \in DOMAIN o.la : \/ p \in DOMAIN d.fields
+                            \/ \E sp \in DOMAIN d.status : p = "status." \o sp
                             \/ p \in {"apiVersion", "kind", "metadata.name", "metadata.namespace"}
                             \/ \E lk \in DOMAIN d.labels : p = "metadata.labels." \o lk
                             \/ \E ak \in DOMAIN d.ann : p = "metadata.annotations." \o ak
